@@ -287,6 +287,21 @@ func ruleNestedPresence(c *Ctx) {
 					}
 				}
 			}
+			// T.ptr-repeated: the repeated-field form writes nothing for an empty
+			// slice or map, so a pointer to one cannot be told from a nil pointer
+			rep := false
+			for i, cd := range conds {
+				if truths[i] {
+					continue
+				}
+				if call, ok := cd.(*ssa.Call); ok {
+					if cal := call.Common().StaticCallee(); cal != nil && cal.Name() == "isRepeatedForm" {
+						rep = true
+					}
+				}
+			}
+			c.Oblige("T.ptr-repeated", rep, mi.Pos(), name, "PointerWrapper is built only around a codec that writes something for an empty value",
+				"PointerWrapper encodes 'present' by writing the target. A slice or map in the repeated-field form (proto option, ProtoCompatibleArrays) writes one field per element and so nothing at all when it is empty: *[]string pointing at an empty slice reads back as a nil pointer although the Descriptor flags explicit presence", nil)
 			c.Oblige("T.nested-presence", good, mi.Pos(), name, "PointerWrapper is built only around a codec without explicit presence of its own",
 				"PointerWrapper encodes 'present' by writing the target and 'absent' by writing nothing. When the target has explicit presence itself (**T, *null.Int) a present pointer to an absent target also writes nothing: **int with a nil inner pointer reads back as a nil outer pointer, &null.Int{} reads back valid", nil)
 		}
@@ -295,6 +310,7 @@ func ruleNestedPresence(c *Ctx) {
 		c.Oblige("T.nested-presence", false, f.Pos(), name, "construction of PointerWrapper", "not found", nil)
 	}
 	c.Floor("T.nested-presence", 1)
+	c.Floor("T.ptr-repeated", 1)
 }
 
 // ---------------------------------------------------------------------------
@@ -419,10 +435,88 @@ func ruleTagRound6(c *Ctx) {
 		return
 	}
 	rname := ssaFuncName(rf)
+	// the closure and the helpers of package main it calls (two levels)
+	fam := []*ssa.Function{rf}
+	for i := 0; i < len(fam) && i < 12; i++ {
+		for _, b := range fam[i].Blocks {
+			for _, in := range b.Instrs {
+				if call, ok := in.(*ssa.Call); ok {
+					if cal := call.Common().StaticCallee(); cal != nil && cal.Pkg == rf.Pkg && len(cal.Blocks) > 0 {
+						dup := false
+						for _, f := range fam {
+							if f == cal {
+								dup = true
+							}
+						}
+						if !dup {
+							fam = append(fam, cal)
+						}
+					}
+				}
+			}
+		}
+	}
+	callsToFam := func(full string) []*ssa.Call {
+		var out []*ssa.Call
+		for _, f := range fam {
+			out = append(out, callsTo(f, full)...)
+		}
+		return out
+	}
+	// G.multiname: one tag serves every name of a declaration ("A, B int"), so
+	// a declaration with several names must never be given a new index
+	{
+		// the point where a new index is taken: the running maximum is rendered into the tag text
+		var incs []*ssa.Call
+		for _, full := range []string{"strconv.Itoa", "strconv.FormatInt", "strconv.AppendInt", "strconv.FormatUint", "strconv.AppendUint"} {
+			incs = append(incs, callsTo(rf, full)...)
+		}
+		isLenNames := func(v ssa.Value) bool {
+			lc, ok := v.(*ssa.Call)
+			if !ok {
+				return false
+			}
+			bi, ok := lc.Common().Value.(*ssa.Builtin)
+			if !ok || bi.Name() != "len" {
+				return false
+			}
+			u, ok := lc.Common().Args[0].(*ssa.UnOp)
+			if !ok {
+				return false
+			}
+			fa, ok := u.X.(*ssa.FieldAddr)
+			return ok && fieldName(fa) == "Names"
+		}
+		for _, st := range incs {
+			guarded := false
+			conds, truths := controllingConds(st.Block())
+			for i, cnd := range conds {
+				bo, ok := cnd.(*ssa.BinOp)
+				if !ok {
+					continue
+				}
+				k, isK := bo.Y.(*ssa.Const)
+				if !isLenNames(bo.X) || !isK || k.Value == nil {
+					continue
+				}
+				kv := k.Value.ExactString()
+				t := truths[i]
+				switch {
+				case bo.Op == token.GTR && kv == "1" && !t, bo.Op == token.GEQ && kv == "2" && !t,
+					bo.Op == token.LEQ && kv == "1" && t, bo.Op == token.LSS && kv == "2" && t,
+					bo.Op == token.EQL && (kv == "1" || kv == "0") && t, bo.Op == token.NEQ && kv == "1" && !t:
+					guarded = true
+				}
+			}
+			c.Oblige("G.multiname", guarded, st.Pos(), rname, "a new index is only taken for a declaration with one name",
+				"a struct tag belongs to the whole declaration: numbering \"A, B int\" gives A and B the same index (plenc then refuses the struct); the point where the next index is taken must be reached only when len(f.Names) <= 1", nil)
+		}
+		c.Floor("G.multiname", 1)
+	}
 	// G.private: the private-field filter is the language's export rule, for named and embedded fields alike
 	{
-		usesExport := len(callsTo(rf, "go/ast.IsExported")) > 0 || len(callsTo(rf, "go/token.IsExported")) > 0
-		usesCase := len(callsTo(rf, "unicode.IsLower")) > 0 || len(callsTo(rf, "unicode.IsUpper")) > 0
+		usesExport := len(callsToFam("go/ast.IsExported")) > 0 || len(callsToFam("go/token.IsExported")) > 0
+		usesCase := len(callsToFam("unicode.IsLower")) > 0 || len(callsToFam("unicode.IsUpper")) > 0
 		// the filter must not be skipped for embedded fields: no test of len(f.Names) guarding it
 		skipsEmbedded := false
 		for _, b := range rf.Blocks {
@@ -1156,6 +1250,7 @@ func ruleNewFresh(c *Ctx) {
 func ruleNullOnlyForPresence(c *Ctx) {
 	p := c.P
 	n := 0
+	nullUnderPresence := map[string]bool{}
 	for _, f := range p.moduleFuncs() {
 		if recvTypeName(f) != "Descriptor" || len(f.Blocks) == 0 {
 			continue
@@ -1174,6 +1269,13 @@ func ruleNullOnlyForPresence(c *Ctx) {
 				n++
 				conds, truths := controllingConds(b)
 				good := false
+				for i, cd := range conds {
+					if u, ok := cd.(*ssa.UnOp); ok && u.Op == token.MUL && truths[i] {
+						if fa, ok := u.X.(*ssa.FieldAddr); ok && fieldName(fa) == "ExplicitPresence" {
+							nullUnderPresence[fname] = true
+						}
+					}
+				}
 				for i, cd := range conds {
 					// ExplicitPresence of the element being rendered
 					if u, ok := cd.(*ssa.UnOp); ok && u.Op == token.MUL && truths[i] {
@@ -1196,6 +1298,16 @@ func ruleNullOnlyForPresence(c *Ctx) {
 		}
 	}
 	c.Floor("T.null-presence", 2)
+	// the converse for map entries: an entry without a value is how an absent
+	// (nil / invalid) value is written, and it must come out as null
+	mname := "plenccodec.Descriptor.readAsMapEntry"
+	if mf := p.ssaFunc(mname); mf == nil {
+		c.Oblige("T.null-absent", false, token.NoPos, mname, "function", "not found", nil)
+	} else {
+		c.Oblige("T.null-absent", nullUnderPresence[mname], mf.Pos(), mname, "a map entry without a value renders null when the value has explicit presence",
+			"a nil pointer or invalid null value in a map is written as an entry with no value field; reading 'no data' through the value's descriptor instead renders it as 0, \"\" or {} - presence is lost in the JSON output", nil)
+	}
+	c.Floor("T.null-absent", 1)
 }
 
 // ruleMapEntryShape: T.mapentry-shape - what counts as a map (entry) for the object rendering.
